@@ -8,6 +8,12 @@ package eventrecorder
 // Time.  The code stamps and compares with time.Now() directly.  The harness keeps a virtual clock
 // V = real clock + offset; "time passes by d" = every stored CreateTime is moved back by d (the
 // code's comparisons only involve now - CreateTime).  The model sees virtual times.
+// The clock of the recorder and the stamps of its entries are independent: "the clock is stepped
+// back by d" (or: the history comes from a host whose clock is d ahead) = every stored CreateTime is
+// moved FORWARD by d, so that entries lie ahead of the clock that the next reload / expiry reads
+// (seconds, minutes, hours, days, more than the retention; an entry exactly at clock-1 / clock /
+// clock+1).  Events recorded after such a step are stamped earlier than older entries of the same
+// list: lists out of creation order are part of the space.
 
 import (
 	"crypto/x509"
@@ -112,11 +118,106 @@ func c20rTimes(l []EventType, offset int64) []string {
 	return out
 }
 
+func c20rKind(e EventType) string {
+	switch {
+	case e.Ssh:
+		return fmt.Sprintf("ssh%d", e.LifetimeSeconds)
+	case e.X509:
+		return fmt.Sprintf("x509-%d", e.LifetimeSeconds)
+	case e.WebLogin:
+		return "web"
+	case e.ServiceProviderUrl != "":
+		return "sp"
+	}
+	return fmt.Sprintf("auth%d", e.AuthType)
+}
+
+// entries as offsets to the clock reading `now` (real seconds) of the step that looks at them: +n = stamped n s ahead
+func c20rOffsets(l []EventType, now int64) []string {
+	out := []string{}
+	for _, e := range l {
+		out = append(out, fmt.Sprintf("%+ds:%s", int64(e.CreateTime)-now, c20rKind(e)))
+	}
+	return out
+}
+
+func c20rCount(l []EventType, e EventType) int {
+	n := 0
+	for _, x := range l {
+		if x == e {
+			n++
+		}
+	}
+	return n
+}
+
+// the entries of `before` stamped later than the clock reading `now` that `after` no longer has
+func c20rFutureLost(before, after []EventType, now int64) (lost []EventType, future int) {
+	for i, e := range before {
+		if int64(e.CreateTime) <= now {
+			continue
+		}
+		future++
+		seen := false
+		for _, x := range before[:i] {
+			if x == e {
+				seen = true
+			}
+		}
+		if !seen && c20rCount(before, e) > c20rCount(after, e) {
+			lost = append(lost, e)
+		}
+	}
+	return lost, future
+}
+
+// what the hourly expiry may do to one user's list (newest first), whatever its order: it takes
+// entries away from the OLD end only, every entry taken is older than the retention, and it does
+// not stop in front of an entry that is older than the retention.  On a list in creation order this
+// is "exactly the entries older than the retention go".
+func c20rExpiryOK(before, after []EventType, min uint64) (bool, string) {
+	if len(after) > len(before) || !c20rSame(before[:len(after)], after) {
+		return false, "the survivors are not the newest entries of the list in their order"
+	}
+	for _, e := range before[len(after):] {
+		if e.CreateTime >= min {
+			return false, "an entry within the retention was dropped"
+		}
+	}
+	if len(after) > 0 && after[len(after)-1].CreateTime < min {
+		return false, "the oldest entry left is older than the retention"
+	}
+	return true, ""
+}
+
+// one step of a scripted history: kind 0 record, 1 the clock moves by d (negative: stepped back), 2 expiry, 3 save+restart, 4 read-out
+type c20rForced struct {
+	kind int
+	d    int64
+}
+
+const c20rDay = int64(86400)
+
+// entries ahead of the clock at a reload and at an expiry, alone and mixed with recent and expired
+// ones, in the orders that recordings and clock steps produce
+var c20rScripted = [][]c20rForced{
+	{{0, 0}, {0, 0}, {1, -5}, {3, 0}, {2, 0}, {4, 0}},
+	{{0, 0}, {0, 0}, {1, -90}, {2, 0}, {3, 0}},
+	{{0, 0}, {1, 32 * c20rDay}, {0, 0}, {1, -7200}, {0, 0}, {3, 0}, {2, 0}},
+	{{0, 0}, {0, 0}, {1, -3 * c20rDay}, {0, 0}, {2, 0}, {3, 0}},
+	{{0, 0}, {1, -40 * c20rDay}, {0, 0}, {2, 0}, {3, 0}},
+	{{0, 0}, {1, 32 * c20rDay}, {0, 0}, {0, 0}, {1, -3600}, {2, 0}, {3, 0}},
+	{{0, 0}, {1, -10}, {0, 0}, {1, c20Retention + 3}, {2, 0}, {3, 0}},
+	{{0, 0}, {1, -600}, {0, 0}, {1, 300}, {0, 0}, {1, -2 * c20rDay}, {0, 0}, {2, 0}, {4, 0}, {3, 0}, {1, 33 * c20rDay}, {2, 0}, {3, 0}},
+	{{0, 0}, {0, 0}, {0, 0}, {1, -1}, {2, 0}, {3, 0}},
+	{{0, 0}, {1, 40 * c20rDay}, {0, 0}, {1, -20 * c20rDay}, {0, 0}, {1, 5 * c20rDay}, {3, 0}, {2, 0}},
+}
+
 var c20rLifetimesMs = []int64{0, 1, 499, 500, 59499, 59500, 60000, 61000, 119499, 3539000, 3540000, 3599000, 3599499, 3600000,
 	3601000, 7140000, 7199000, 57600000, 86340000, 86400000, 3888000000}
 
 func TestVerif_C20R(t *testing.T) {
-	res := newVerifResult("random recorder histories (record auth / certificate / service-provider login / web login for 3 users, time passing by seconds .. 40 days incl. steps that put an entry exactly at retention-1/retention/retention+1, hourly expiry, save -> reload, read-out) against the real eventrecorder functions; event-loop scenarios through New(), the six channels, history requests, the 5 s save timer and restarts (E=event R=request S=save X=restart); non-trivial = a reload or expiry that had something to drop or at least two entries to keep in order; distinct by (operation kinds, ages)")
+	res := newVerifResult("random recorder histories (record auth / certificate / service-provider login / web login for 3 users, time passing by seconds .. 40 days incl. steps that put an entry exactly at retention-1/retention/retention+1, the clock stepped BACK by seconds .. more than the retention so that entries are stamped ahead of the clock and lists leave creation order, an entry at clock-1/clock/clock+1, hourly expiry, save -> reload, read-out) against the real eventrecorder functions; event-loop scenarios through New(), the six channels, history requests, the 5 s save timer and restarts (E=event R=request S=save X=restart); New() on saved history files whose stamps are ahead of the clock; non-trivial = a reload or expiry that had something to drop or at least two entries to keep in order; distinct by (operation kinds, ages)")
 	dir, err := ioutil.TempDir("", "verif_c20r")
 	if err != nil {
 		t.Fatal(err)
@@ -136,15 +237,28 @@ func TestVerif_C20R(t *testing.T) {
 		os.Remove(h.file)
 		nOps := 6 + rng.Intn(maxOps-5)
 		reloads := 0
+		var script []c20rForced
+		if hi >= 3 && hi-3 < len(c20rScripted) {
+			script = c20rScripted[hi-3]
+			nOps = len(script)
+		}
 		for k := 0; k < nOps && !h.discard; k++ {
 			c := rng.Intn(100)
 			if hi < 3 {
 				// the design-phase reproduction: three events, then save and reload
 				c = []int{0, 0, 0, 85, 95, 75, 95}[k%7]
 			}
+			forcedD, forced := int64(0), false
+			if script != nil {
+				c = []int{0, 50, 75, 85, 95}[script[k].kind]
+				forcedD, forced = script[k].d, true
+			}
 			switch {
 			case c < 45: // record
 				u := users[rng.Intn(len(users))]
+				if forced {
+					u = users[int(forcedD)%len(users)]
+				}
 				var coq, desc string
 				switch rng.Intn(4) {
 				case 0:
@@ -177,7 +291,12 @@ func TestVerif_C20R(t *testing.T) {
 				res.bump("record")
 			case c < 70: // time passes
 				var d int64
-				switch rng.Intn(6) {
+				pick := rng.Intn(10)
+				if forced {
+					pick, d = -1, forcedD
+				}
+				switch pick {
+				case -1:
 				case 0:
 					d = rng.Int63n(120)
 				case 1:
@@ -186,6 +305,35 @@ func TestVerif_C20R(t *testing.T) {
 					d = rng.Int63n(40 * 86400)
 				case 3:
 					d = c20Retention/2 + rng.Int63n(86400)
+				case 4, 5, 6:
+					// the clock is stepped back (the history is from a clock that is ahead): a few
+					// seconds, minutes, hours, days, more than the retention
+					switch rng.Intn(5) {
+					case 0:
+						d = -(1 + rng.Int63n(30))
+					case 1:
+						d = -(60 + rng.Int63n(3600))
+					case 2:
+						d = -(3600 + rng.Int63n(48*3600))
+					case 3:
+						d = -(2*c20rDay + rng.Int63n(28*c20rDay))
+					default:
+						d = -(c20Retention + 1 + rng.Int63n(9*c20rDay))
+					}
+					res.bump("clock_back_step")
+				case 7:
+					// put some stored entry at clock-1 / clock / clock+1
+					var all []uint64
+					for _, l := range h.sr.eventsMap {
+						for e := l.newest; e != nil; e = e.older {
+							all = append(all, e.CreateTime)
+						}
+					}
+					if len(all) > 0 {
+						ct := int64(all[rng.Intn(len(all))])
+						d = ct - time.Now().Unix() - int64(rng.Intn(3)-1)
+						res.bump("clock_boundary_step")
+					}
 				default:
 					// put some stored entry at retention-1 / retention / retention+1
 					var all []uint64
@@ -200,9 +348,13 @@ func TestVerif_C20R(t *testing.T) {
 						res.bump("boundary_step")
 					}
 				}
-				if d > 0 {
+				if d != 0 {
 					h.shiftAll(d)
-					h.descs = append(h.descs, fmt.Sprintf("+%ds", d))
+					if d > 0 {
+						h.descs = append(h.descs, fmt.Sprintf("+%ds", d))
+					} else {
+						h.descs = append(h.descs, fmt.Sprintf("clock stepped back %ds", -d))
+					}
 				}
 			case c < 82: // hourly expiry
 				var last *Events
@@ -217,22 +369,46 @@ func TestVerif_C20R(t *testing.T) {
 				last = nil
 				after := h.sr.getEventsList(&last).Events
 				nontrivial := false
+				futureSeen := 0
 				for u, l := range before {
 					want := c20rFresh(l, uint64(t0-c20Retention))
 					if len(want) != len(l) || len(l) > 1 {
 						nontrivial = true
 					}
-					if !c20rSame(want, after[u]) {
+					inOrder := sort.SliceIsSorted(l, func(i, j int) bool { return l[i].CreateTime > l[j].CreateTime })
+					ok, why := c20rExpiryOK(l, after[u], uint64(t0-c20Retention))
+					if inOrder && !c20rSame(want, after[u]) {
+						ok, why = false, "history in creation order: the survivors are not exactly the entries within the retention"
+					}
+					if !ok {
 						res.hit(verifHit{Key: "C20:expire", Oracle: "expiry does not drop exactly the entries older than the retention", Kind: "history",
-							What:     fmt.Sprintf("user %s: before %v (ages in s), after %v, now-retention=%d", u, c20rTimes(l, h.offset), c20rTimes(after[u], h.offset), t0+h.offset-c20Retention),
+							What:     fmt.Sprintf("user %s: %s; before %v (creation times, newest first), after %v, now-retention=%d", u, why, c20rTimes(l, h.offset), c20rTimes(after[u], h.offset), t0+h.offset-c20Retention),
 							Case:     map[string]interface{}{"history": hi, "ops": append([]string(nil), h.descs...)},
 							Observed: c20rTimes(after[u], h.offset)})
+					}
+					lost, nf := c20rFutureLost(l, after[u], t0)
+					futureSeen += nf
+					if len(lost) > 0 {
+						res.hit(verifHit{Key: "C20:history-lost:event-from-future:expiry", Kind: "history",
+							Oracle: "an entry stamped later than the recorder's clock (so not older than the retention) is gone after the hourly expiry",
+							What: fmt.Sprintf("step: hourly expiry (expireOldEvents); user %s: entries before it as offsets to the recorder's clock, newest first %v; after it %v; lost %v",
+								u, c20rOffsets(l, t0), c20rOffsets(after[u], t0), c20rOffsets(lost, t0)),
+							Case:     map[string]interface{}{"history": hi, "step": "expiry", "user": u, "offsets_before": c20rOffsets(l, t0), "ops": append([]string(nil), h.descs...)},
+							Observed: c20rOffsets(after[u], t0)})
 					}
 				}
 				h.steps = append(h.steps, fmt.Sprintf("(RExpire %s, OChanged %s)", coqZ(t0+h.offset), coqBool(changed)))
 				h.descs = append(h.descs, fmt.Sprintf("expire @%d changed=%v", t0+h.offset, changed))
 				res.bump("expire")
-				res.eval(fmt.Sprintf("expire|%v|%v", changed, nontrivial), nontrivial)
+				if futureSeen > 0 {
+					// entries ahead of the clock: take the read-out right away so that the model is compared
+					// (and the property evaluated in Coq) on the state this expiry left
+					_, coq := h.dump()
+					h.steps = append(h.steps, fmt.Sprintf("(RGet, ODump %s)", coq))
+					h.descs = append(h.descs, "get")
+					res.bump("expire_with_entries_from_future")
+				}
+				res.eval(fmt.Sprintf("expire|%v|%v|future=%v", changed, nontrivial, futureSeen > 0), nontrivial)
 			case c < 93: // save, restart
 				var last *Events
 				before := h.sr.getEventsList(&last).Events
@@ -252,10 +428,21 @@ func TestVerif_C20R(t *testing.T) {
 				h.sr = &EventRecorder{filename: h.file, eventsMap: m}
 				after, coq := h.dump()
 				nontrivial := false
+				futureSeen := 0
 				for u, l := range before {
 					want := c20rFresh(l, uint64(t0-c20Retention))
 					if len(want) != len(l) || len(want) > 1 {
 						nontrivial = true
+					}
+					lost, nf := c20rFutureLost(l, after[u], t0)
+					futureSeen += nf
+					if len(lost) > 0 {
+						res.hit(verifHit{Key: "C20:history-lost:event-from-future:reload", Kind: "history",
+							Oracle: "an entry stamped later than the recorder's clock (so not older than the retention) is gone after a save and restart",
+							What: fmt.Sprintf("step: save and restart (saveEvents, loadEvents); user %s: entries before it as offsets to the recorder's clock, newest first %v; after it %v; lost %v",
+								u, c20rOffsets(l, t0), c20rOffsets(after[u], t0), c20rOffsets(lost, t0)),
+							Case:     map[string]interface{}{"history": hi, "step": "reload", "user": u, "offsets_before": c20rOffsets(l, t0), "ops": append([]string(nil), h.descs...)},
+							Observed: c20rOffsets(after[u], t0)})
 					}
 					if !c20rSame(want, after[u]) {
 						key, what := "C20:reload-lost", "a save and restart loses young entries or keeps old ones"
@@ -276,7 +463,10 @@ func TestVerif_C20R(t *testing.T) {
 				h.descs = append(h.descs, fmt.Sprintf("reload @%d", t0+h.offset))
 				reloads++
 				res.bump("reload")
-				res.eval(fmt.Sprintf("reload|%d|%v", len(before), nontrivial), nontrivial)
+				if futureSeen > 0 {
+					res.bump("reload_with_entries_from_future")
+				}
+				res.eval(fmt.Sprintf("reload|%d|%v|future=%v", len(before), nontrivial, futureSeen > 0), nontrivial)
 			default: // read-out
 				_, coq := h.dump()
 				h.steps = append(h.steps, fmt.Sprintf("(RGet, ODump %s)", coq))
@@ -297,6 +487,7 @@ func TestVerif_C20R(t *testing.T) {
 	// through New(): channels -> event loop -> save timer -> restart
 	// crash points and failing file operations in the save path, start-up next to leftovers
 	c20rFaults(t, res, dir)
+	c20rFutureStarts(t, res, dir)
 	c20rLoops(t, res, dir)
 
 	shards := 1
@@ -314,13 +505,15 @@ func TestVerif_C20R(t *testing.T) {
 		}
 		var sb strings.Builder
 		sb.WriteString(coqCaseHeader)
-		sb.WriteString("From KM Require Import Base.Cases Model.Events.\n")
+		sb.WriteString("From KM Require Import Base.Cases Model.Events Model.EventsClock.\n")
 		sb.WriteString("Definition histories : list (list (rop * robs)) := [\n")
 		sb.WriteString(strings.Join(cases[lo:hiX], ";\n"))
 		sb.WriteString("\n].\n")
 		sb.WriteString("Definition c20r_mismatches := Eval vm_compute in map (fun i => (i + " + fmt.Sprint(lo) + ")%nat) (mismatches (fun h => negb (rcheck [] h)) histories).\nPrint c20r_mismatches.\n")
 		sb.WriteString("(* mismatching histories in which an OBSERVED save-and-restart lost, kept too much of, or reordered the state observed before it *)\n")
 		sb.WriteString("Definition c20r_violating := Eval vm_compute in map (fun i => (i + " + fmt.Sprint(lo) + ")%nat) (mismatches (fun h => negb (rcheck [] h) && robs_violation [] h) histories).\nPrint c20r_violating.\n")
+		sb.WriteString("(* ... in which an entry stamped later than the clock of a reload / an expiry is missing from the dump observed right after it *)\n")
+		sb.WriteString("Definition c20r_future_lost := Eval vm_compute in map (fun i => (i + " + fmt.Sprint(lo) + ")%nat) (mismatches (fun h => negb (rcheck [] h) && robs_future_lost [] None h) histories).\nPrint c20r_future_lost.\n")
 		sb.WriteString("Definition c20r_ncases := Eval vm_compute in fold_left (fun n (h : list (rop * robs)) => (n + N.of_nat (length h))%N) histories 0%N.\nPrint c20r_ncases.\n")
 		name := "CasesC20R.v"
 		if s > 0 {
@@ -590,4 +783,154 @@ func c20rLoops(t *testing.T, res *verifResult, dir string) {
 	sb.WriteString("Definition c20l_ncases := Eval vm_compute in length scenarios.\nPrint c20l_ncases.\n")
 	ioutil.WriteFile(filepath.Join(verifOut(), "CasesC20L.v"), []byte(sb.String()), 0644)
 	ioutil.WriteFile(filepath.Join(verifOut(), "CasesC20L.idx"), []byte(strings.Join(idx, "\n")+"\n"), 0644)
+}
+
+// ---------------------------------------------------------------- New() on a history file whose stamps are ahead of the clock
+//
+// The production start-up path (New -> loadEvents -> eventLoop -> history request) on a history file
+// written by saveEvents whose entries are stamped relative to the clock of the starting process:
+// ahead of it by seconds .. more than the retention (a file from a host whose clock is ahead, or the
+// clock was stepped back before the restart), mixed with recent entries and entries older than the
+// retention, in and out of creation order.  Offsets keep 60 s away from the retention boundary and
+// 5 s away from the clock so that the second that may pass during New() decides nothing.
+
+var c20rFutureFiles = [][][]int64{ // per file: per user: offsets to the clock, newest first
+	{{5, -10}},
+	{{90, 30, -3600}},
+	{{-100, 7200, -32 * c20rDay}},
+	{{2 * c20rDay, -c20rDay, -40 * c20rDay}, {-5, -6}},
+	{{40 * c20rDay, 32 * c20rDay, -60}},
+	{{-3600, -7200}, {3600, 600, 7}},
+	{{-33 * c20rDay, 12 * 3600, -35 * c20rDay, -30 * c20rDay, 8}},
+	{{-60, -30 * c20rDay}, {-32 * c20rDay}},
+}
+
+func c20rFutureStarts(t *testing.T, res *verifResult, dir string) {
+	files := append([][][]int64(nil), c20rFutureFiles...)
+	if verifThorough() {
+		rng := verifRand()
+		pool := []int64{5, 61, 3600, 86400, 3 * c20rDay, 30 * c20rDay, 32 * c20rDay, 45 * c20rDay}
+		for i := 0; i < 60; i++ {
+			var f [][]int64
+			for u := 0; u < 1+rng.Intn(3); u++ {
+				var l []int64
+				for j := 0; j < 1+rng.Intn(6); j++ {
+					o := pool[rng.Intn(len(pool))] + rng.Int63n(50)
+					if rng.Intn(2) == 0 {
+						o = -o
+					}
+					l = append(l, o)
+				}
+				f = append(f, l)
+			}
+			files = append(files, f)
+		}
+	}
+	users := []string{"alice", "bob", "carol-with-a-longer-name"}
+	var cases, idx []string
+	for fi, offs := range files {
+		file := filepath.Join(dir, fmt.Sprintf("future_%d.gob", fi))
+		var t0 int64
+		var m, got EventsMap
+		done := false
+		for try := 0; try < 4 && !done; try++ {
+			t0 = time.Now().Unix()
+			m = EventsMap{}
+			k := 0
+			for ui, l := range offs {
+				evs := []EventType{}
+				for _, o := range l {
+					e := EventType{CreateTime: uint64(t0 + o), AuthType: uint(2000 + k)}
+					if k%3 == 1 {
+						e = EventType{CreateTime: uint64(t0 + o), WebLogin: true}
+					}
+					evs = append(evs, e)
+					k++
+				}
+				m[users[ui]] = evs
+			}
+			if err := saveEvents(file, m); err != nil {
+				t.Fatal(err)
+			}
+			sr, err := New(file, testlogger.New(t))
+			if err != nil {
+				res.hit(verifHit{Key: "C20:harness:eventloop", Oracle: "harness", Kind: "history", What: fmt.Sprintf("New() on a history file just saved: %v", err)})
+				return
+			}
+			var ok bool
+			got, ok = c20rRequest(sr)
+			if !ok {
+				res.hit(verifHit{Key: "C20:harness:eventloop", Oracle: "harness", Kind: "history", What: "the started recorder does not answer a history request"})
+				return
+			}
+			done = time.Now().Unix() == t0
+		}
+		if !done {
+			res.bump("discarded_clock_tick")
+			continue
+		}
+		desc := []string{}
+		future := 0
+		for ui := range offs {
+			u := users[ui]
+			desc = append(desc, fmt.Sprintf("%s %v", u, c20rOffsets(m[u], t0)))
+			want := c20rFresh(m[u], uint64(t0-c20Retention))
+			lost, nf := c20rFutureLost(m[u], got[u], t0)
+			future += nf
+			if len(lost) > 0 {
+				res.hit(verifHit{Key: "C20:history-lost:event-from-future:reload", Kind: "history",
+					Oracle: "an entry stamped later than the recorder's clock (so not older than the retention) is gone after a save and restart",
+					What: fmt.Sprintf("step: start through New() on a saved history file; user %s: entries in the file as offsets to the clock of the starting process, newest first %v; history after the start %v; lost %v",
+						u, c20rOffsets(m[u], t0), c20rOffsets(got[u], t0), c20rOffsets(lost, t0)),
+					Case:     map[string]interface{}{"file": fi, "step": "restart through New()", "user": u, "offsets_in_file": c20rOffsets(m[u], t0)},
+					Observed: c20rOffsets(got[u], t0)})
+			}
+			if !c20rSame(want, got[u]) {
+				key, what := "C20:reload-lost", "a save and restart loses young entries or keeps old ones"
+				if len(want) == len(got[u]) {
+					key, what = "C20:reload-order", "a save and restart changes the order of a user's history"
+				}
+				res.hit(verifHit{Key: key, Oracle: what, Kind: "history",
+					What:     fmt.Sprintf("start through New(); user %s: entries in the file as offsets to the clock %v, history after the start %v", u, c20rOffsets(m[u], t0), c20rOffsets(got[u], t0)),
+					Case:     map[string]interface{}{"file": fi, "step": "restart through New()", "user": u, "offsets_in_file": c20rOffsets(m[u], t0)},
+					Observed: c20rOffsets(got[u], t0)})
+			}
+		}
+		if len(got) != len(m) {
+			res.hit(verifHit{Key: "C20:reload-users", Oracle: "a save and restart changes the set of users", Kind: "history",
+				What: fmt.Sprintf("start through New(): %d users in the file, %d after", len(m), len(got)), Case: map[string]interface{}{"file": fi}})
+		}
+		coqMap := func(em EventsMap) string {
+			var us []string
+			for u := range em {
+				us = append(us, u)
+			}
+			sort.Strings(us)
+			var parts []string
+			for _, u := range us {
+				var evs []string
+				for _, e := range em[u] {
+					evs = append(evs, "("+c20rCoqEv(e, -t0)+")")
+				}
+				parts = append(parts, fmt.Sprintf("(%s, [%s])", coqPacked([]byte(u)), strings.Join(evs, "; ")))
+			}
+			return "[" + strings.Join(parts, "; ") + "]"
+		}
+		// virtual time: the clock of the starting process reads 0
+		cases = append(cases, fmt.Sprintf(" (%s,\n  %s)", coqMap(m), coqMap(got)))
+		idx = append(idx, fmt.Sprintf("%d\tstart through New() on a saved file, offsets to the clock (newest first): %s", len(idx), strings.Join(desc, "; ")))
+		res.bump("starts_on_file_with_entries_from_future")
+		res.eval(fmt.Sprintf("start|%d|future=%v", len(offs), future > 0), true)
+	}
+	var sb strings.Builder
+	sb.WriteString(coqCaseHeader)
+	sb.WriteString("From KM Require Import Base.Cases Model.Events Model.EventsClock.\n")
+	sb.WriteString("(* (history file, history answered after New()); creation times relative to the clock of the starting process *)\n")
+	sb.WriteString("Definition starts : list (rstate * list (bs * list ev)) := [\n" + strings.Join(cases, ";\n") + "\n].\n")
+	sb.WriteString("Definition start_ok (c : rstate * list (bs * list ev)) : bool := dump_matches (snd c) (snd (l_get (l_start 0%Z (Some (fst c))))).\n")
+	sb.WriteString("Definition c20t_mismatches := Eval vm_compute in mismatches (fun c => negb (start_ok c)) starts.\nPrint c20t_mismatches.\n")
+	sb.WriteString("Definition c20t_violating := Eval vm_compute in mismatches (fun c => negb (start_ok c) && future_lost 0%Z (fst c) (snd c)) starts.\nPrint c20t_violating.\n")
+	sb.WriteString("Definition c20t_ncases := Eval vm_compute in length starts.\nPrint c20t_ncases.\n")
+	ioutil.WriteFile(filepath.Join(verifOut(), "CasesC20T.v"), []byte(sb.String()), 0644)
+	ioutil.WriteFile(filepath.Join(verifOut(), "CasesC20T.idx"), []byte(strings.Join(idx, "\n")+"\n"), 0644)
 }
